@@ -87,6 +87,42 @@ pub fn fen(tier: usize, seed: u64, out: &mut Out) {
     });
     out.stats.add("fen.positions_corrupted", corrupted as u64);
 
+    // (sixth wave, C10-f) the castling field exhaustively: every string of length <= 4 over `K Q k q -` on a board where all
+    // four rights are consistent, and the en-passant field over a small alphabet on a board with an en-passant pawn
+    {
+        let alpha = ['K', 'Q', 'k', 'q', '-'];
+        let mut fields: Vec<String> = vec![String::new()];
+        let mut layer: Vec<String> = vec![String::new()];
+        for _ in 0..4 {
+            let mut next = Vec::new();
+            for f in &layer {
+                for a in alpha {
+                    next.push(format!("{f}{a}"));
+                }
+            }
+            fields.extend(next.iter().cloned());
+            layer = next;
+        }
+        for f in &fields {
+            emit_pfen(out, "castle_field", &format!("r3k2r/8/8/8/8/8/8/R3K2R w {f} - 0 1"));
+        }
+        let ealpha = ['a', 'e', 'h', '3', '6', '1', '8', '-', 'E'];
+        let mut efields: Vec<String> = Vec::new();
+        for a in ealpha {
+            efields.push(a.to_string());
+            for b in ealpha {
+                efields.push(format!("{a}{b}"));
+                for c in ['3', '6', '-', 'e'] {
+                    efields.push(format!("{a}{b}{c}"));
+                }
+            }
+        }
+        for f in &efields {
+            emit_pfen(out, "ep_field", &format!("4k3/8/8/8/4P3/8/8/4K3 b - {f} 0 1"));
+            emit_pfen(out, "ep_field", &format!("4k3/8/8/4p3/8/8/8/4K3 w - {f} 0 1"));
+        }
+    }
+
     let mut rng = Rng::new(seed, 401);
     // random 64-cell builder contents: BoardBuilder -> Display -> pfen
     for _ in 0..FEN_BUILDER_RANDOM[tier] {
